@@ -415,22 +415,29 @@ def check(ctx: Ctx) -> None:
                           {"kind": t["kind"], "prefix": [[e["op"], e["h"], e["d"], e["n"], e["ver"], e["res"]] for e in t["events"][:reached]]})
     ctx.sample({"recorded_session": {"kind": traces[0]["kind"], "events": traces[0]["events"][:4]}})
     # ---- binding demonstration on specification-generated behaviours (independent of /repo)
-    good = [{"kind": "spec", "events": json.loads(json.dumps(r["hist"]))} for r in sim.records if len(r["hist"]) >= 9][:6]
+    cands = [{"kind": "spec", "events": json.loads(json.dumps(r["hist"]))} for r in sim.records if len(r["hist"]) >= 9]
+    with_ro = [g for g in cands if any(e["op"] in READ_ONLY for e in g["events"])]
+    if len(with_ro) < 6:
+        raise MachineryError("too few simulated behaviours with read-only operations for the binding demonstration")
+    good = with_ro[:6]
     bad_pure = json.loads(json.dumps(good[0]))
     line = next(i for i, e in enumerate(bad_pure["events"]) if e["op"] in READ_ONLY)
     ulp = "p2" if bad_pure["events"][line]["d"] == "d3" else "p1"
     bad_pure["events"][line]["ver"][ulp] += 50                       # a read-only operation "changed" a buffer
-    bad_hist = json.loads(json.dumps(good[1]))
-    seen_keys: Dict[str, int] = {}
-    line2 = None
-    for i, e in enumerate(bad_hist["events"]):
-        if e["op"] in READ_ONLY:
-            k2 = json.dumps([e["op"], e["d"], e["ver"]])
-            if k2 in seen_keys:
-                e["res"] += 77                                        # same key, different result
-                line2 = i
-                break
-            seen_keys[k2] = i
+    bad_hist, line2 = None, None
+    for g in with_ro:                                                 # a behaviour that repeats a computation on unchanged data
+        cand = json.loads(json.dumps(g))
+        seen_keys: Dict[str, int] = {}
+        for i, e in enumerate(cand["events"]):
+            if e["op"] in READ_ONLY:
+                k2 = json.dumps([e["op"], e["d"], e["ver"]])
+                if k2 in seen_keys:
+                    e["res"] += 77                                    # same key, different result
+                    bad_hist, line2 = cand, i
+                    break
+                seen_keys[k2] = i
+        if bad_hist is not None:
+            break
     tests = [bad_pure] + good[2:5] + ([bad_hist] if line2 is not None else [])
     v = validate(ctx, tests, "selftest")
     ctx.selftest("a read-only operation with a changed buffer version is rejected at that line", v[0][1] == line + 1 and v[0][1] != v[0][2])
